@@ -1,6 +1,11 @@
 package main
 
 import (
+	"bufio"
+	"encoding/json"
+	"os"
+	"os/exec"
+	"path/filepath"
 	"database/sql"
 	"database/sql/driver"
 	"fmt"
@@ -87,6 +92,114 @@ func recConnDB() *sql.DB {
 	return recDB
 }
 
+// ---- the DB manager's own handlers (cmd/db-manager/v1beta1, package main) run in a helper process built by /verif/check
+// with `go build -overlay` (see harness/dbm); one JSON request per line
+
+type dbmLog struct {
+	TS        string `json:"ts"`
+	HasMetric bool   `json:"hasMetric"`
+	Name      string `json:"name"`
+	Value     string `json:"value"`
+}
+type dbmReq struct {
+	Dialect string      `json:"dialect"`
+	Kind    string      `json:"kind"`
+	Trial   string      `json:"trial"`
+	NoLog   bool        `json:"nolog"`
+	Logs    []dbmLog    `json:"logs"`
+	Metric  string      `json:"metric"`
+	Start   string      `json:"start"`
+	End     string      `json:"end"`
+	Rows    [][3]string `json:"rows"`
+}
+type dbmStmt struct {
+	Q    string   `json:"q"`
+	Args []string `json:"args"`
+}
+type dbmResp struct {
+	Panic  string      `json:"panic"`
+	Err    string      `json:"err"`
+	Stmts  []dbmStmt   `json:"stmts"`
+	Rows   [][3]string `json:"rows"`
+	HasLog bool        `json:"hasLog"`
+}
+
+var (
+	dbmOnce sync.Once
+	dbmIn   *bufio.Writer
+	dbmOut  *bufio.Reader
+	dbmCmd  *exec.Cmd
+)
+
+func dbmStart() bool {
+	dbmOnce.Do(func() {
+		bin := os.Getenv("KVH_DBM")
+		if bin == "" {
+			exe, _ := os.Executable()
+			bin = filepath.Join(filepath.Dir(exe), "dbm")
+		}
+		if _, err := os.Stat(bin); err != nil {
+			return
+		}
+		cmd := exec.Command(bin)
+		cmd.Env = append(os.Environ(), "KVH_DBM_STDIO=1")
+		w, err1 := cmd.StdinPipe()
+		r, err2 := cmd.StdoutPipe()
+		if err1 != nil || err2 != nil || cmd.Start() != nil {
+			return
+		}
+		dbmCmd, dbmIn, dbmOut = cmd, bufio.NewWriter(w), bufio.NewReaderSize(r, 1<<20)
+	})
+	return dbmCmd != nil
+}
+
+// dbmCall: the handler's answer in the same canonical form as the direct call; "" when the helper is not available
+func dbmCall(req dbmReq) string {
+	if !dbmStart() {
+		return ""
+	}
+	b, _ := json.Marshal(req)
+	dbmIn.Write(b)
+	dbmIn.WriteByte('\n')
+	if dbmIn.Flush() != nil {
+		return "handler-process-died"
+	}
+	line, err := dbmOut.ReadBytes('\n')
+	if err != nil {
+		return "handler-process-died"
+	}
+	var resp dbmResp
+	if json.Unmarshal(line, &resp) != nil {
+		return "handler-bad-answer"
+	}
+	if resp.Panic != "" {
+		return "panic"
+	}
+	stmts := []string{}
+	for _, st := range resp.Stmts {
+		as := []string{}
+		for _, a := range st.Args {
+			as = append(as, hx(a))
+		}
+		stmts = append(stmts, "sql="+hx(st.Q)+" args="+strings.Join(as, ","))
+	}
+	if resp.Err != "" {
+		if len(stmts) == 0 {
+			return "err"
+		}
+		return "err-after-statement " + strings.Join(stmts, " ; ")
+	}
+	out := "ok " + strings.Join(stmts, " ; ")
+	if req.Kind == "get" {
+		rows := []string{}
+		for _, r := range resp.Rows {
+			rows = append(rows, hx(r[0])+":"+hx(r[1])+":"+hx(r[2]))
+		}
+		out += " rows=" + strings.Join(rows, ",")
+	}
+	return out
+}
+
 var c19Strings = []string{"acc", "loss", "x'; DROP TABLE observation_logs;--", "a\"b", "", "0.5", "tr-1", "%s", "?", "$1", "ü", "a b", "\\", "1e3", "NaN"}
 var c19Times = []string{"2024-01-01T00:00:00Z", "2024-01-01T01:00:00.5+01:00", "2024-06-30T23:59:59.123456789Z", "", "bad", "2024-01-01", "0001-01-01T00:00:00Z", "2024-01-01T00:00:00.000001Z"}
 
@@ -121,6 +234,7 @@ func init() {
 		tags := []string{dialect}
 		var op string
 		var run func() (string, error)
+		hreq := dbmReq{Dialect: dialect, Trial: trial}
 		switch rng.Intn(3) {
 		case 0: // report
 			var ol *api.ObservationLog
@@ -140,14 +254,21 @@ func init() {
 						mt = hx(ml.Metric.Name) + ":" + hx(ml.Metric.Value)
 					}
 					ol.MetricLogs = append(ol.MetricLogs, ml)
+					hl := dbmLog{TS: ts, HasMetric: ml.Metric != nil}
+					if ml.Metric != nil {
+						hl.Name, hl.Value = ml.Metric.Name, ml.Metric.Value
+					}
+					hreq.Logs = append(hreq.Logs, hl)
 					toks = append(toks, tsTok(ts, dialect)+" "+mt)
 				}
 				op = fmt.Sprintf("C19 report %s %s log %d %s", dialect, hx(trial), n, strings.Join(toks, " "))
 			} else {
 				op = fmt.Sprintf("C19 report %s %s nolog", dialect, hx(trial))
+				hreq.NoLog = true
 				tags = append(tags, "report-without-observation-log")
 			}
 			tags = append(tags, "report")
+			hreq.Kind = "report"
 			run = func() (string, error) { return "", conn.RegisterObservationLog(trial, ol) }
 		case 1: // get
 			metric := pick(rng, c19Strings)
@@ -180,6 +301,7 @@ func init() {
 				}
 				n, v := pick(rng, c19Strings), pick(rng, c19Strings)
 				theRec.rows = append(theRec.rows, []driver.Value{ts, n, v})
+				hreq.Rows = append(hreq.Rows, [3]string{ts, n, v})
 				rowToks = append(rowToks, fmt.Sprintf("%s %s %s", tok, hx(n), hx(v)))
 			}
 			filt := func(s string) string {
@@ -190,6 +312,7 @@ func init() {
 			}
 			op = fmt.Sprintf("C19 get %s %s %s %s %s rows %d %s", dialect, hx(trial), hx(metric), filt(st), filt(en), nr, strings.Join(rowToks, " "))
 			tags = append(tags, "get")
+			hreq.Kind, hreq.Metric, hreq.Start, hreq.End = "get", metric, st, en
 			run = func() (string, error) {
 				ol, err := conn.GetObservationLog(trial, metric, st, en)
 				if err != nil {
@@ -204,6 +327,7 @@ func init() {
 		default:
 			op = fmt.Sprintf("C19 delete %s %s", dialect, hx(trial))
 			tags = append(tags, "delete")
+			hreq.Kind = "delete"
 			run = func() (string, error) { return "", conn.DeleteObservationLog(trial) }
 		}
 		op = strings.Join(strings.Fields(op), " ")
@@ -227,6 +351,21 @@ func init() {
 			}
 			impl = "ok " + strings.Join(theRec.stmts, " ; ") + extra
 		}()
-		return Case{Ops: []string{op}, Impl: []string{strings.Join(strings.Fields(impl), " ")}, Tags: tags}
+		impl = strings.Join(strings.Fields(impl), " ")
+		// the same request through the DB manager's own gRPC handler (cmd/db-manager/v1beta1/main.go): its answer is what
+		// is compared with the model; a difference from the back end's own answer is tagged
+		if h := strings.Join(strings.Fields(dbmCall(hreq)), " "); h != "" {
+			tags = append(tags, "via-db-manager-handler")
+			if h != impl {
+				tags = append(tags, "handler-differs-from-backend")
+				if h == "panic" {
+					tags = append(tags, "PANIC")
+				}
+			}
+			impl = h
+		} else {
+			tags = append(tags, "db-manager-helper-missing")
+		}
+		return Case{Ops: []string{op}, Impl: []string{impl}, Tags: tags}
 	}
 }
